@@ -191,6 +191,47 @@ CLAIMED = {
     ),
 }
 
+CLAIMED['C13'] = dict(
+    technique="Coq proof over fit_to_range re-translated from excelutil.py by the Python-AST translator on every "
+              "run, plus hand-written models of array_fixup (numpy broadcasting) and cse_array_wrapper (closure) "
+              "on top of C10's operator model; extracted-model/implementation differential run exhaustive over "
+              "shapes up to 4x4; property oracle on the implementation incl. end-to-end workbooks with array "
+              "formulas entered over target ranges",
+    text="Machine-checked (Coq 8.16, 13 theorems in coq/Props/C13.v, all closed under the global context). "
+         "FULL, all sizes (unbounded lists, induction/lia): C13_fit_shape and C13_fit_elem on Gen/arrayfit.v "
+         "(_ArrayFormulaContext.fit_to_range, regenerated from /repo/src/pycel/excelutil.py every run; the "
+         "context object is modelled by its ctx_address.size = (height, width)): for every non-empty rectangular "
+         "result and every target h x w >= 1x1 the output has exactly h rows of w and element (i,j) is "
+         "res[i][j] inside, res[0][j] / res[i][0] for a single row / single column, #N/A elsewhere "
+         "(C13_fit_elem_cases spells fit_elem out); C13_fit_scalar (a scalar is repeated over the target); "
+         "C13_fit_no_context. Proof route: the translated function is proved equal to the list-level "
+         "specification Model/Arrays.v fit_spec by symbolic execution. FULL over the hand-written "
+         "Model/Arrays.v: C13_op_pointwise (for operands that are scalars or non-empty rectangular arrays of "
+         "scalars with broadcast-compatible shapes — equal or 1 per axis — array_fixup has the broadcast shape "
+         "and element (i,j) = Model/Ops.v fixup of a[i or 0][j or 0] and b[i or 0][j or 0]; the model keeps "
+         "the code's flat broadcast list and its chunking by size[1]), C13_op_defined (defined whenever every "
+         "scalar application is), C13_op_incompatible (ValueError, outside the statement), C13_op_dispatch and "
+         "C13_op_scalar_error_left (the dispatch in front of array_fixup); C13_fun_pointwise (for an ARBITRARY "
+         "wrapped function f and any parameter-index set: with R x C matrices in the array positions the "
+         "result is R x C and element (i,j) = f of the arguments with arrays indexed at (i,j), others passed "
+         "through) and C13_fun_no_array. PARTIAL: C13_op_scalar_error_right_partial (array op scalar-error "
+         "returns the scalar error; pointwise only against non-error elements) — the full statement is REFUTED "
+         "in the model and on the implementation (coq/Refuted/C13_scalar_error.v: ((#REF!,1),) + #N/A gives "
+         "#N/A at the position where the scalar operator and Excel give #REF!). CORRESPONDENCE/ORACLE-ONLY (no "
+         "theorem): numpy's np.array/np.broadcast (hand-modelled: to_nd, bshape, expand), the lifted library "
+         "functions MOD, ROUND, LEFT, IF through apply_meta (pointwise oracle against the same function on "
+         "scalars), and the whole CSE pipeline of excelwrapper/excelcompiler (CSE_INDEX expansion, range "
+         "re-assembly, member cell = index(range,i,j)): generated openpyxl workbooks with ArrayFormula cells "
+         "over every target shape, evaluate(range) and evaluate(member) compared with the statement and with "
+         "fit_to_range(op_fixup ...) computed by the extracted models. Every quick run: ~37k cases — all 17x17 "
+         "operand shape pairs (scalar + 1..4 x 1..4) x 13 operators, all 17 result shapes x 16 target shapes "
+         "for fit_to_range plus sizes up to 8x8 -> 11x11, all 132 compatible operand pairs x 16 targets end to "
+         "end (~4.7k array formulas, ~9k member cells), ~1.2k wrapper probe calls over 8 parameter-index sets; "
+         "values sampled from numbers, text, logicals, blank and the seven error codes; model and "
+         "implementation compared exactly.",
+    design_ref="DESIGN.md 5 C13",
+)
+
 NOT_YET = "check not built yet in this round (planned: DESIGN.md section 7 lists the build order)"
 
 
